@@ -300,7 +300,7 @@ def sizeof_oracle(ctx):
 
 
 def campaign_sizeof(ctx):
-    strat = V.spec_and_params(frag=FRAG | {"grange", "optional", "select", "stopif"}, depth=3).map(list)
+    strat = V.spec_and_params(frag=FRAG | {"grange", "optional", "select", "stopif", "lamlen"}, depth=3).map(list)
     ctx.search(strat, sizeof_oracle(ctx), ctx.budget(10000, 200000))
 campaign_sizeof.shards = (2, 8)
 
